@@ -6,7 +6,9 @@ once in anchors.toml) stay silent on pure renames:
     as on the pinned tree gets its current field names mapped back to the pinned names;
   * parameters: a known function with the same arity gets its parameter names mapped back;
   * functions: if exactly one pinned function of a parent (module / impl) is missing and exactly one
-    new function with the identical signature appeared under the same parent, it is the renamed one.
+    new function with the identical signature appeared under the same parent, it is the renamed one;
+    a function that kept its name and signature but moved between its module and an impl block of
+    the same module (free function <-> associated function) is the moved one.
 
 Anything else (fields added, types changed, two candidates) is left alone: rules then see the real
 program and fail closed where an anchor is gone."""
@@ -62,6 +64,24 @@ def normalize(raw):
     for m in missing:
         cands = [n for n in new if _parent(n) == _parent(m) and cur["fns"][n]["sig"] == pin["fns"][m]["sig"]]
         others = [x for x in missing if _parent(x) == _parent(m) and pin["fns"][x]["sig"] == pin["fns"][m]["sig"]]
+        if len(cands) == 1 and len(others) == 1:
+            fn_map[cands[0]] = m
+    # a function moved between a module and an impl block of that module (free fn <-> associated fn),
+    # name and signature unchanged
+    def _module(p):
+        segs = p.split("::")
+        out = []
+        for x in segs[:-1]:
+            if x[:1].isupper() or x.startswith("<"):
+                break
+            out.append(x)
+        return "::".join(out)
+    for m in missing:
+        if m in fn_map.values():
+            continue
+        last = m.rsplit("::", 1)[-1]
+        cands = [n for n in new if n not in fn_map and n.rsplit("::", 1)[-1] == last and _module(n) == _module(m) and cur["fns"][n]["sig"] == pin["fns"][m]["sig"]]
+        others = [x for x in missing if x.rsplit("::", 1)[-1] == last and _module(x) == _module(m)]
         if len(cands) == 1 and len(others) == 1:
             fn_map[cands[0]] = m
     if fn_map:
